@@ -10,7 +10,7 @@ from .engine import AND, OR, NOT
 class Session:
     def __init__(self, name, tier, seed, ws, binary, timeout_s=None):
         self.name, self.tier, self.seed, self.ws, self.binary = name, tier, seed, ws, binary
-        self.timeout_s = timeout_s or (120 if tier == 'quick' else 1800)
+        self.timeout_s = timeout_s or (300 if tier == 'quick' else 1800)
         self.results = []
         self.hs = []
         self.validated = 0
